@@ -7,6 +7,7 @@
 //   dbformulas               every species / phase of the loaded database with the engine's element list
 //                            -> "S <hexname> <type> name:coef ..." / "P <hexname> <hexformula> name:coef ..." / "E <name> <gfw>" ; "end"
 //   run <hexinput>           RunString (dump string on)   -> "run <rc> <hex errors> <hex dump> <hex warnings>"
+//                            (after a run that reported errors the later runs of the same instance are skipped: "run -1 - - -")
 //   sel                      selected output, all rows of the current user number
 //                            -> "sel <rows> <cols>", "h <hex heading> ...", "r <cell> ..." (cell = d<hexdouble> | s<hex> | e)
 //   rxnstep <n> <inc> <step> <fraction>   xsolution_zero; incremental_reactions = inc; add_reaction(Rxn_reaction_map[n], step, fraction)
@@ -106,6 +107,7 @@ public:
 
 int main() {
   std::unique_ptr<IPhreeqc> ip;
+  bool failed = false;
   std::string line;
   while (std::getline(std::cin, line)) {
     std::vector<std::string> w = hx::words(line);
@@ -113,6 +115,7 @@ int main() {
     const std::string& op = w[0];
     if (op == "db") {
       ip.reset(new IPhreeqc());
+      failed = false;
       int rc = ip->LoadDatabase(hx::unhex(w[1]).c_str());
       ip->SetDumpStringOn(true);
       ip->SetOutputStringOn(false);
@@ -126,12 +129,15 @@ int main() {
       TestIPhreeqc::gfw(ip.get(), hx::unhex(w[1]));
     } else if (op == "dbformulas") {
       TestIPhreeqc::dbformulas(ip.get());
+    } else if (op == "run" && failed) {
+      std::cout << "run -1 - - -\n";
     } else if (op == "run") {
       int rc = -1;
       try { rc = ip->RunString(hx::unhex(w[1]).c_str()); } catch (...) { rc = -99; }
       std::string err = ip->GetErrorString();
       std::string dump = ip->GetDumpString();
       std::string warn = ip->GetWarningString();
+      if (rc != 0) failed = true;
       std::cout << "run " << rc << " " << hx::hex(err) << " " << hx::hex(dump) << " " << hx::hex(warn) << "\n";
     } else if (op == "sel") {
       int rows = ip->GetSelectedOutputRowCount(), cols = ip->GetSelectedOutputColumnCount();
